@@ -30,7 +30,7 @@ import (
 
 // Arena side of the "fuzz" stream (C19). One job = one case: rebuild the world, call ONE reader-side
 // entry point of the real library on the hostile input under recover(), then evaluate the clauses:
-//   returned   the call came back (a hang is seen by the arena parent: no result within its per-job timeout)
+//   returned   the call came back (a hang is seen by the arena parent: no result within its per-job timeout, confirmed by a second run)
 //   no-panic   recover() caught nothing (a panic on a library goroutine kills the child; the parent reports it)
 //   contained  everything outside the destination/root is unchanged, whether the call succeeded or failed
 //   usable     umask, cwd and root are what they were, and a trivial Untar into a fresh directory succeeds
